@@ -34,10 +34,15 @@ def run(tier, seed):
                        'successful contact from an infectious node" (the BFS layer recurrence in the digraph of successful contacts; the rule is '
                        'asked with (u, v, *args) and only about susceptible v), every infectious node recovers after one step unless the recovery '
                        'rule keeps it, S+I+R=N, t advances by 1 - for graphs of any order. _simple_test_transmission_: one U01 draw compared with p. '
-                       'Wrappers basic_discrete_SIR / percolation_based_discrete_SIR: delegation binding.')
+                       'Wrappers basic_discrete_SIR / percolation_based_discrete_SIR: delegation binding. basic_discrete_SIS (plain arrays): the generation loops carry '
+                       '"new_infecteds = the nodes outside the infectious set reached by a processed contact whose own uniform draw is < p" (the draw site is tested only for '
+                       'v outside the infectious set, against p, and no other draw site exists), and a two-state postcondition of ONE pass of the main loop says that exactly one row '
+                       'is appended, the time advances by 1 and the new infectious set is exactly {v not infectious : some infectious neighbour u has draw(u,v) < p} - one step of '
+                       'the discrete SIS chain, for graphs of any order; rows: t[j]=tmin+j<=tmax, S+I=N, row 0 = the request; the loop stops only by extinction or when the next step would pass tmax.')
     rep.assumptions += ['M (cited): the layer recurrence gives infection time = tmin + BFS distance; independent Bernoulli(p) contacts give the Reed-Frost chain',
                         'the transmission rule is a function of the ordered pair within a step (it is asked at most once per pair per step)',
                         'distinct / disjoint initial sets; rho not combined with initial_recovereds']
-    rep.not_covered += ['basic_discrete_SIS loop is not under unbounded contract (bounded scripted-draw check only); percolate_network: same nodes, symmetric sub-graph of G, each edge decided by its own U01 draw compared with p',
+    rep.assumptions += ['basic_discrete_SIS: the uniform draw of a contact is named by its ordered pair (sound while set iteration and G.neighbors enumerate without repetition - assumed library contracts - and no other draw site exists - checked)']
+    rep.not_covered += ['basic_discrete_SIS with return_full_data=True (bounded native stand-in only); percolate_network: same nodes, symmetric sub-graph of G, each edge decided by its own U01 draw compared with p',
                         'return_full_data=True paths of discrete_SIR']
     return rep, util.native_replayer
